@@ -15,7 +15,7 @@ EXPLANATION = ('The planner\'s own choice of victims is C08 (not applicable). De
                'same metadata, is exactly atime >= mtime; (G3) directories are filtered before the plan (= C17 R17.2); (G4) elements '
                'of the plan\'s to_evict flow only into unlink(directory + their own file name), elements of to_move_back only '
                'into the re-stamping utimens, both visited with forward vector iterators, directory = prune\'s parameter.')
-FLOORS = {'G1': 3, 'G2': 3, 'G3': 1, 'G4': 4}
+FLOORS = {'G1': 3, 'G2': 3, 'G3': 1, 'G4': 4, 'G5': 3}
 
 
 def planner_events(ctx, q):
@@ -160,6 +160,13 @@ def g2(ctx):
     return out
 
 
+def g5(ctx):
+    """"sparing files that were read since their last insertion or reprieve": the lookup's re-touch must *set* the mark
+    maintenance tests (atime >= mtime) -- it stores atime := the file's own mtime and runs on every hit (= R09.2/R09.3)."""
+    from rules import c09
+    return [inst('G5', i['key'].split('|', 1)[1], i['ok'], i['detail'], path=i.get('path') or []) for i in c09.r09_2(ctx) + c09.r09_3(ctx)]
+
+
 def g3(ctx):
     return [inst('G3', i['key'].split('|', 1)[1], i['ok'], i['detail'], path=i['path']) for i in c17.r17_2(ctx) if 'not_directory' in i['key']]
 
@@ -204,4 +211,4 @@ def g4(ctx):
 
 def run(ctx):
     from runner import collect
-    return collect(ctx, g1, g2, g3, g4)
+    return collect(ctx, g1, g2, g3, g4, g5)
